@@ -34,7 +34,7 @@ ASSUMPTIONS = ["known findings are keyed by (phase, exception type, raising "
                "pox.lib.packet per parse+print+pack"]
 REQUIRED = ["frames", "shards_run_with_assertions_stripped", "unparsed_layers_compared_with_their_region", "parsed_ok", "truncations", "corruptions", "structured",
             "random_frames", "chains_walked", "reserialised", "printed",
-            "budget_armed", "packet_in_events", "checksum_fixed_mutants", "igmp_checksum_fixed_mutants", "template_base_frames",
+            "budget_armed", "packet_in_events", "packet_in_events_with_a_cut_frame", "checksum_fixed_mutants", "igmp_checksum_fixed_mutants", "template_base_frames",
             "deeply_nested_frames", "frames_handled_with_debug_logging_on",
             "library_log_records_formatted"]
 TIMEOUT = {"quick": 1200, "thorough": 10800}
@@ -113,6 +113,16 @@ def check_frame (raw, rep, case):
         pp = ev.parsed
         _ = pp.find("ipv4"); _ = str(pp)
         rep.count("packet_in_events")
+        # ... and as the switch sends it when it kept the frame in a buffer:
+        # only the first octets travel (the miss length may be anything from
+        # 0 up), the total length says how long the frame was
+        for k in (0, 1, 13, 14, (len(raw) * 7) // 10):
+          if k >= len(raw): continue
+          ev = pof.PacketIn(_Con(), of.ofp_packet_in(data=raw[:k], in_port=1, buffer_id=7,
+                                                     total_len=len(raw)))
+          pp = ev.parsed
+          if pp is not None: _ = pp.find("ipv4"); _ = str(pp)
+          rep.count("packet_in_events_with_a_cut_frame")
       except Exception as e:
         fire("packet-in event .parsed raises %s in %s" %
              (type(e).__name__, where(e)), repr(e)); return
